@@ -116,7 +116,7 @@ def build():
     if not mi:
         raise AnchorLost("parse_obfuscated_bytecode_signature: char_indices binding not found")
     it, src = mi.group(1), mi.group(2)
-    mf = re.search(r"let\s+mut\s+(\w+)\s*=\s*0\s*;", ps.orig)
+    mf = re.search(r"let\s+mut\s+(\w+)\s*=\s*\d+\s*;", ps.orig)
     if not mf:
         raise AnchorLost("parse_obfuscated_bytecode_signature: window start binding not found")
     first = mf.group(1)
